@@ -2108,3 +2108,50 @@ mod test {
     }
 }
 
+
+
+//============ Kani harnesses (verification only) ============================
+//
+// Compiled only by `cargo kani` (which sets `cfg(kani)`); add-only.
+
+#[cfg(kani)]
+mod kani_verif {
+    use super::*;
+
+    struct M4;
+
+    impl ObjectMeta for M4 {
+        const SIZE: usize = 4;
+        type ConsistencyError = ();
+
+        fn write(
+            &self, _write: &mut StorageWrite
+        ) -> Result<(), ArchiveError> {
+            Ok(())
+        }
+
+        fn read(
+            _read: &mut StorageRead
+        ) -> Result<Self, ArchiveError> {
+            Ok(M4)
+        }
+    }
+
+    /// `fits(e, o)` is exactly "same size, or room for one more header".
+    #[kani::proof]
+    fn archive_fits_exact() {
+        let e: u64 = kani::any();
+        let o: u64 = kani::any();
+        // Object sizes are sums of in-memory lengths: far below 2^63.
+        kani::assume(o <= u64::MAX / 2);
+        let r = Archive::<M4>::fits(e, o);
+        assert!(r == (e == o || e >= o + ObjectHeader::SIZE));
+        // consequence used by publish/update: if it fits and is not exact,
+        // the remainder can hold an (empty) object header.
+        if r && e != o {
+            assert!(e - o >= ObjectHeader::SIZE);
+        }
+        kani::cover!(r && e != o);
+        kani::cover!(!r);
+    }
+}
